@@ -204,3 +204,86 @@ pub fn load_file(_env: &Env, rest: &[String]) -> i32 {
     }
     0
 }
+
+/// dev-find SUBSTRING [profile] : find a generated program whose play shows an observation
+/// containing SUBSTRING, and shrink it
+pub fn find(env: &Env, rest: &[String]) -> i32 {
+    let needle = rest[0].clone();
+    let prof = profile_named(rest.get(1).map(|s| s.as_str()).unwrap_or("default"));
+    let shows = |tape: &Vec<u16>| -> bool {
+        let prog = gen_program(tape, &prof);
+        let src = prog.to_ink();
+        let Ok(Ok(json)) = guard(|| compile(&src)) else { return needle == "COMPILE" };
+        let meta = Rc::new(meta_from_json(&json));
+        let r = guard(|| {
+            let mut h = Host::new(&json, meta.clone(), &HostCfg::default()).unwrap();
+            for k in 0..6 {
+                h.apply(&HostOp::ContinueMax);
+                h.apply(&HostOp::ChooseMod(k));
+            }
+            h.trace.iter().any(|o| o.show().contains(&needle))
+        });
+        r.unwrap_or(needle == "PANIC")
+    };
+    for i in 0..20000u64 {
+        let tape = dev_tape(env.seed * 1000003 + i, 1500);
+        if shows(&tape) {
+            let small = crate::engine::shrink_tapes(tape, 4000, &mut |t: &Vec<u16>| shows(t));
+            let prog = gen_program(&small, &prof);
+            println!("{}", prog.to_ink());
+            return 0;
+        }
+    }
+    println!("not found");
+    1
+}
+
+/// dev-idioms : compile and play every idiom alone and in pairs
+pub fn idioms(_env: &Env, _rest: &[String]) -> i32 {
+    let n = crate::idioms::idiom_count();
+    let mut bad = 0;
+    for i in 0..n {
+        for j in 0..n {
+            // tape: n=2 idioms -> pick(6)==1 ; then indices
+            let enc = |k: usize, m: usize| -> u16 { (((k as u32) << 16) / m as u32 + 1) as u16 };
+            let tape = vec![enc(1, 6), enc(i, n), enc(j, n), 0];
+            let mut t = crate::pgen::Tape::new(&tape);
+            let (src, used) = crate::idioms::gen_idiom_program(&mut t);
+            match guard(|| compile(&src)) {
+                Ok(Ok(json)) => {
+                    let meta = Rc::new(meta_from_json(&json));
+                    let r = guard(|| {
+                        let mut h = Host::new(&json, meta.clone(), &HostCfg { allow_fallbacks: true, ..HostCfg::default() }).unwrap();
+                        for k in 0..10 {
+                            h.apply(&HostOp::ContinueMax);
+                            h.apply(&HostOp::ChooseMod(k));
+                        }
+                        h.trace.clone()
+                    });
+                    match r {
+                        Ok(tr) => {
+                            if j == 0 {
+                                let errs: Vec<String> = tr.iter().filter(|o| matches!(o, Obs::Err { .. })).map(|o| o.show()).collect();
+                                println!("{:32} lines={} errs={:?}", used[0], tr.iter().filter(|o| matches!(o, Obs::Line { .. })).count(), errs.iter().map(|e| e.chars().rev().take(90).collect::<String>().chars().rev().collect::<String>()).collect::<Vec<_>>());
+                            }
+                        }
+                        Err(p) => {
+                            bad += 1;
+                            println!("PANIC {used:?} {}", p.site());
+                        }
+                    }
+                }
+                Ok(Err(e)) => {
+                    bad += 1;
+                    if j == 0 { println!("COMPILE ERROR {used:?}: {e}"); }
+                }
+                Err(p) => {
+                    bad += 1;
+                    println!("COMPILER PANIC {used:?} {}", p.site());
+                }
+            }
+        }
+    }
+    println!("bad={bad}");
+    0
+}
